@@ -124,6 +124,9 @@ var c11Extra = []struct {
 	{"record-skip2", func(s *site) { s.mark(); wrapSkip2(s) }},
 	{"record-skip3", func(s *site) { s.mark(); wrapSkip3(s) }},
 	{"record-skip2-closure", func(s *site) { func() { s.mark(); wrapSkip2(s) }() }},
+	// a skip beyond the bottom of the stack selects no frame: the location is empty, in both modes
+	{"record-skip-beyond-stack", func(s *site) { s.want = ":0"; log.Record(s.ctx, log.WarnLevel, s.tag, 200, log.Msg(s.id)) }},
+	{"record-skip-huge", func(s *site) { s.want = ":0"; log.Record(s.ctx, log.WarnLevel, s.tag, 1<<40, log.Msg(s.id)) }},
 }
 
 // Case: "<enableCaller 0|1> <fastCaller 0|1> <repeat>"
